@@ -25,6 +25,9 @@ use tracing::trace;
 
 #[cfg(test)]
 mod tests;
+#[cfg(all(test, feature = "verif"))]
+#[path = "/verif/harness/composer_bundle/mod.rs"]
+mod verif_harness;
 
 #[derive(Debug, thiserror::Error)]
 enum SizedBundleError {
